@@ -75,6 +75,22 @@ def set_parents(tree: ast.AST) -> None:
             ch._parent = node  # type: ignore[attr-defined]
 
 
+def clone(node):
+    """Structural copy of an AST (fields and positions only; the _parent back-links are not followed)."""
+    if isinstance(node, ast.AST):
+        new = node.__class__()
+        for f in node._fields:
+            if hasattr(node, f):
+                setattr(new, f, clone(getattr(node, f)))
+        for a in ('lineno', 'col_offset', 'end_lineno', 'end_col_offset'):
+            if hasattr(node, a):
+                setattr(new, a, getattr(node, a))
+        return new
+    if isinstance(node, list):
+        return [clone(x) for x in node]
+    return node
+
+
 def parent(node: ast.AST) -> Optional[ast.AST]:
     return getattr(node, '_parent', None)
 
